@@ -88,8 +88,10 @@ def run(ctx, rep):
     m8(F, rep)
     m10(F, rep)
     m12(F, rep)
-    from .c03 import t12 as _t12
+    m13(F, rep)
+    from .c03 import t12 as _t12, t13 as _t13
     _t12(F, rep)
+    _t13(F, rep)
     # M5: the parameters the analysis predicted with are the ones reconstruction reads back: every header field fits its width
     # (a truncated field is "accepted and then reconstructed differently"); same rule as C08/P3
     from . import ub
@@ -191,6 +193,37 @@ def m10(F, rep, rule="M10"):
     ds = [flow.describe(b, t["args"][3], names=True) if len(t["args"]) == 4 else "?" for bb, t in calls]
     ok = bool(calls) and all(any(re.match(f, d) for f in forms) for d in ds)
     rep.add(rule, "last-block-flag=final-element", ok, where, "predict_block(.., last_block = %s)" % ds)
+
+
+def m13(F, rep, rule="M13"):
+    """The rebuilt header's HLIT / HDIST are the *corrected* counts: `result.num_literals` and `result.num_dist` are the
+    lengths of the predicted code-length vectors read AFTER the stored count correction resized them.  A length taken before
+    the correction (or from anything else) writes the predicted counts into the header whenever the prediction was wrong —
+    untrimmed trailing zero lengths — and splits the combined list at the wrong place."""
+    from .c11 import _roots
+    b = F.body("preflate_rs::tree_predictor::recreate_tree_for_block")
+    n = 0
+    for field in ("num_literals", "num_dist"):
+        stores = [(bb, st) for bb in sorted(b.normal_blocks()) for st in b.stmts(bb)
+                  if st["k"] == "assign" and any(isinstance(e, dict) and e.get("n") == field for e in st["p"]["p"])]
+        for k, (bb, st) in enumerate(stores):
+            n += 1
+            ok, why = False, "the stored value is not the length of a vector"
+            if st["r"]["k"] in ("use", "cast"):
+                o = flow.origin(b, st["r"]["op"])
+                lens = [(cb, t) for cb, t in o.calls if strip_generics(callee_def(t)).endswith("Vec::len")]
+                if len(lens) == 1 and len(o.calls) == 1 and not (o.exprs or o.args or o.consts or o.unknown):
+                    lb, lt = lens[0]
+                    vec = _roots(b, lt["args"][0])
+                    rs = [cb for cb, t in b.calls() if strip_generics(callee_def(t)).endswith("Vec::resize") and _roots(b, t["args"][0]) == vec]
+                    if not rs:
+                        why = "no count correction (resize) of that vector"
+                    elif all(lb in b.reachable_from(r) for r in rs):
+                        ok, why = True, "len() of the vector, read after its count correction"
+                    else:
+                        why = "len() is read before the count correction resizes the vector"
+            rep.add(rule, "header-count-is-the-corrected-length:%s#%d" % (field, k), ok, b.where(bb), why)
+    rep.floor(rule, "header-count-stores", n, 2)
 
 
 def m12(F, rep, rule="M12"):
